@@ -257,7 +257,9 @@ class SGetter(SV):
 
 class SDict(SV):
     """symbolic dict: has: Array(Val->Bool), get: Array(Val->Val)"""
-    def __init__(self, has, get): self.has, self.get = has, get
+    def __init__(self, has, get, inst=None):
+        self.has, self.get = has, get
+        self.inst = inst       # key -> ground instances of the dict's defining axioms at that key (lookup hints)
 
 
 class SDictC(SV):
